@@ -508,6 +508,26 @@ def fam_crash_slow(rnd, n):
     return res
 
 
+def fam_crash_contfail(rnd, n):
+    """Crash points of plans whose continuous checks (plan or block level) FAIL while slow sequences execute: the
+    crash falls after the failed run became durable and before the sequences in flight have finished. Outcomes are
+    a function of the call number only, the same in the resuming process (its runs are counted from 1 again)."""
+    res = []
+    for i in range(n):
+        lvl = rnd.choice(["p", "p", "b1"])
+        pg = {"cont": 1} if lvl == "p" else {}
+        bg = {"cont": 1} if lvl == "b1" else {}
+        if rnd.random() < 0.5:
+            (pg if rnd.random() < 0.5 else bg)["deferred"] = 1
+        ns = rnd.choice([1, 2])
+        sh = shape([blk([2] * ns, conc=rnd.choice([1, 2]), tol=0, g=bg)] + ([blk([1])] if rnd.random() < 0.4 else []), pg=pg)
+        lat = {a: [rnd.choice([3000, 5000])] for a in seq_actions(sh)}
+        k = rnd.choice([1, 2, 3])      # passing runs before the failing one (the initial run passes)
+        out = {"%s.cont.a1" % lvl: ["ok"] * k + ["perm"]}
+        res.append(scn(sh, "free", out, lat=lat, crash="sample", crashmax=14, fn=False, tag="crash-contfail", contdelay=rnd.choice([300, 800]), latmax=100, waitms=8000))
+    return res
+
+
 def fam_crash_deferred(rnd, n):
     """Crash points around deferred checks that pass or fail, at plan and block level; the answer of a check may
     change across the restart (a deferred group that has run is not run again)."""
